@@ -4,7 +4,9 @@
 // predicate + invariants on the recorded run list), and with --edges the replay
 // of every edge of the TLC state graph of models/C18_trigger.tla (model tier M).
 #include "vf.hpp"
+#include <opm/input/eclipse/Schedule/Action/ASTNode.hpp>
 #include <opm/input/eclipse/Schedule/Action/ActionAST.hpp>
+#include <opm/input/eclipse/Schedule/Action/PyAction.hpp>
 #include <opm/input/eclipse/Schedule/Action/ActionContext.hpp>
 #include <opm/input/eclipse/Schedule/Action/ActionResult.hpp>
 #include <opm/input/eclipse/Schedule/Action/ActionX.hpp>
@@ -14,6 +16,8 @@
 #include <opm/input/eclipse/Schedule/SummaryState.hpp>
 #include <opm/input/eclipse/Schedule/Well/WList.hpp>
 #include <opm/input/eclipse/Schedule/Well/WListManager.hpp>
+#include <opm/common/utility/MemPacker.hpp>
+#include <opm/common/utility/Serializer.hpp>
 #include <ctime>
 #include <memory>
 
@@ -338,6 +342,7 @@ struct Sim {                      // the simulator's view: action configuration 
     Action::Actions actions; Action::State state; std::time_t t = T0;
     std::time_t base = T0;        // time at which the current definition was made
     int nd = 0;                   // number of redefinitions so far = expected definition index
+    int ns = 0;                   // number of serialisation round trips so far
     std::vector<std::time_t> runs;// runs of the CURRENT definition (the reference keeps count / last run per definition)
     std::time_t old_last = -1;    // last run of the oldest earlier definition that ever ran (history/ghost value, -1: none)
     explicit Sim(Params pp) : p0(pp), p(pp) {
@@ -362,9 +367,12 @@ static std::string absstr(const Sim& s) { const Abs a = abstraction(s); char b[1
 // a violation that shows for a redefined action only gets its own key (":redefined") unless the same
 // check already failed for a first definition (then it is the same defect)
 static std::string rkey(const Sim& s, const std::string& base) {
-    if (s.nd == 0) return base;
-    for (auto& v : R->violations) if (v.key == base) return base;
-    return base + ":redefined";
+    // likewise ":after-roundtrip" for a violation that needs a pack/unpack of the Actions / State objects in the history
+    std::vector<std::string> cand = {base};
+    if (s.nd > 0) cand.push_back(cand.back() + ":redefined");
+    if (s.ns > 0) cand.push_back(cand.back() + ":after-roundtrip");
+    for (size_t i = 0; i + 1 < cand.size(); ++i) for (auto& v : R->violations) if (v.key == cand[i]) return cand[i];
+    return cand.back();
 }
 static std::string where_str(const Sim& s, const std::function<std::string()>& cs) {
     return " (definition #" + std::to_string(s.nd) + ": max_run " + std::to_string(s.p.mr) + ", min_wait " + std::to_string(s.p.mw) + " d, start +" + std::to_string(s.p.so) + " d; case " + cs() + ")";
@@ -423,21 +431,41 @@ static void sim_redefine(Sim& s, int k, const std::function<std::string()>& cs) 
     check_state(s, cs);
 }
 
-// events 0..5: evaluation (dt, outcome); 6..8: redefinition variants
-static const int NEV = 6 + NREDEF;
-static const char* EVNAME[NEV] = {"0T", "1T", "2T", "0F", "1F", "2F", "R1", "R2", "R3"};
-static bool ev_enabled(const Sim& s, int e) { return e < 6 || s.nd < MAXREDEF; }
-static void apply_ev(Sim& s, int e, const std::function<std::string()>& cs) { if (e < 6) sim_step(s, e % 3, e < 3, cs); else sim_redefine(s, e - 6, cs); }
+// ROUND-TRIP event: the Actions object (S1) or the Actions object and the Action::State (S2) are packed with
+// Serializer<MemPacker> and the history continues on the unpacked copies (MPI broadcast, save/load).  The reference
+// is unaffected: a round trip must not change any future.
+struct Ser : Serializer<Serialization::MemPacker> { Serialization::MemPacker pk; Ser() : Serializer<Serialization::MemPacker>(pk) {} };
+static void sim_roundtrip(Sim& s, int variant, const std::function<std::string()>& cs) {
+    auto rp = [&]() { return "{\"case\": " + vf::jstr(cs()) + "}"; };
+    const std::string before = absstr(s);
+    ++s.ns;
+    try {
+        { Ser sr; sr.pack(s.actions); Action::Actions fresh; sr.unpack(fresh); s.actions = fresh; }
+        if (variant == 1) { Ser sr; sr.pack(s.state); Action::State fresh; sr.unpack(fresh); s.state = fresh; }
+    } catch (const std::exception& e) { R->violation(rkey(s, "C18:trig:roundtrip:exception"), std::string("pack/unpack threw: ") + e.what() + where_str(s, cs), rp()); return; }
+    check_state(s, cs);
+    const std::string after = absstr(s);
+    if (after != before) R->violation(rkey(s, "C18:trig:roundtrip-changes-state"), std::string("pack/unpack of Actions") + (variant == 1 ? " and Action::State" : "") + " changed the abstract state [" + before + "] to [" + after + "]" + where_str(s, cs), rp());
+}
+
+// events 0..5: evaluation (dt, outcome); 6..8: redefinition variants; 9..10: round trips
+static const int NEV = 6 + NREDEF + 2;
+static const char* EVNAME[NEV] = {"0T", "1T", "2T", "0F", "1F", "2F", "R1", "R2", "R3", "S1", "S2"};
+static int g_max_s = 2;
+static bool is_redef(int e) { return e >= 6 && e < 6 + NREDEF; }
+static bool is_rt(int e) { return e >= 6 + NREDEF; }
+static bool ev_enabled(const Sim& s, int e) { return e < 6 || (is_redef(e) ? s.nd < MAXREDEF : s.ns < g_max_s); }
+static void apply_ev(Sim& s, int e, const std::function<std::string()>& cs) { if (e < 6) sim_step(s, e % 3, e < 3, cs); else if (is_redef(e)) sim_redefine(s, e - 6, cs); else sim_roundtrip(s, e - 6 - NREDEF, cs); }
 static int parse_ev(const std::string& tok) { for (int e = 0; e < NEV; ++e) if (tok == EVNAME[e]) return e; return -1; }
 static std::string p0str(const Sim& s) { return std::to_string(s.p0.mr) + " " + std::to_string(s.p0.mw) + " " + std::to_string(s.p0.so); }
 struct Graph { std::unordered_map<std::string, std::string> succ; std::unordered_set<std::string> states; };
 
 // L: bound on the length of a history without redefinition, Lr: of a history that contains one
-static void dfs(const Sim& s, int depth, int L, int Lr, std::vector<int>& hist, Graph& g, const Graph& cl, uint64_t& steps, uint64_t& histories, uint64_t& histories_redef) {
-    if (depth >= (s.nd > 0 ? Lr : L)) { ++(s.nd > 0 ? histories_redef : histories); return; }
+static void dfs(const Sim& s, int depth, int L, int Lr, std::vector<int>& hist, Graph& g, const Graph& cl, uint64_t& steps, uint64_t& histories, uint64_t& histories_redef, uint64_t& histories_rt) {
+    if (depth >= (s.nd > 0 || s.ns > 0 ? Lr : L)) { ++(s.ns > 0 ? histories_rt : s.nd > 0 ? histories_redef : histories); return; }
     const std::string from = absstr(s);
     for (int e = 0; e < NEV; ++e) {
-        if (!ev_enabled(s, e) || (e >= 6 && depth >= Lr)) continue;
+        if (!ev_enabled(s, e) || (e >= 6 && depth >= Lr)) continue;     // redefinitions and round trips only within the shorter bound
         Sim n = s;
         hist.push_back(e);
         auto cs = [&]() { std::string c = "trig " + p0str(s) + " |"; for (int x : hist) { c += ' '; c += EVNAME[x]; } return c; };
@@ -445,19 +473,21 @@ static void dfs(const Sim& s, int depth, int L, int Lr, std::vector<int>& hist, 
         apply_ev(n, e, cs);
         ++steps;
         const std::string to = absstr(n);
+        if (is_rt(e)) { dfs(n, depth + 1, L, Lr, hist, g, cl, steps, histories, histories_redef, histories_rt); hist.pop_back(); continue; }     // stuttering step: checked inside sim_roundtrip
         g.states.insert(to);
         g.succ.emplace(from + " | " + EVNAME[e], to);
         auto it = cl.succ.find(from + " | " + EVNAME[e]);
         if (it == cl.succ.end() || it->second != to)       // the abstract key must determine the future (else the dedup key is wrong or the implementation depends on something else, e.g. records of earlier definitions)
             R->violation(rkey(n, "C18:trig:abstract-key-not-deterministic"), "abstract state [" + from + "] + " + EVNAME[e] + " led to [" + (it == cl.succ.end() ? std::string("(not in the closed graph)") : it->second) + "] and to [" + to + "]", "{\"case\": " + vf::jstr(cs()) + "}");
-        dfs(n, depth + 1, L, Lr, hist, g, cl, steps, histories, histories_redef);
+        dfs(n, depth + 1, L, Lr, hist, g, cl, steps, histories, histories_redef, histories_rt);
         hist.pop_back();
     }
 }
 
 static void part_b() {
     const int L = R->thorough() ? 8 : 6, Lr = R->thorough() ? 7 : 6;
-    uint64_t steps = 0, cl_steps = 0, histories = 0, histories_redef = 0;
+    g_max_s = R->thorough() ? 2 : 1;
+    uint64_t steps = 0, cl_steps = 0, histories = 0, histories_redef = 0, histories_rt = 0;
     // closure of the abstract graph without depth bound, from all 32 initial definitions (BFS with the abstract key as
     // dedup key, one concrete representative per state = a shortest history that reaches it, so a defect is first
     // reported on a shortest case); every transition runs the real code + oracles.  Redefinition merges the graphs of
@@ -469,6 +499,22 @@ static void part_b() {
         const std::string from = absstr(cur);
         for (int e = 0; e < NEV; ++e) {
             if (!ev_enabled(cur, e)) continue;
+            if (is_rt(e)) {
+                // round trip inserted before every event of this state (shortest reproducers for round-trip defects):
+                // the state must not change and every successor must be the one reached without the round trip
+                Sim r = cur; const std::string pr = path + " " + EVNAME[e];
+                auto csr = [&]() { return "trig " + p0str(cur) + " |" + pr; };
+                apply_ev(r, e, csr); ++cl_steps;
+                for (int e2 = 0; e2 < NEV; ++e2) {
+                    if (is_rt(e2) || !ev_enabled(r, e2)) continue;
+                    Sim n2 = r; const std::string p3 = pr + " " + EVNAME[e2];
+                    auto cs2 = [&]() { return "trig " + p0str(cur) + " |" + p3; };
+                    apply_ev(n2, e2, cs2); ++cl_steps;
+                    Sim n1 = cur; apply_ev(n1, e2, cs2);
+                    if (absstr(n2) != absstr(n1)) R->violation(rkey(n2, "C18:trig:roundtrip-changes-future"), std::string("after a pack/unpack the event ") + EVNAME[e2] + " leads from [" + from + "] to [" + absstr(n2) + "], without it to [" + absstr(n1) + "]" + where_str(n2, cs2), "{\"case\": " + vf::jstr(cs2()) + "}");
+                }
+                continue;
+            }
             Sim n = cur; const std::string p2 = path + " " + EVNAME[e];
             auto cs = [&]() { return "trig " + p0str(cur) + " |" + p2; };
             apply_ev(n, e, cs); ++cl_steps;
@@ -493,13 +539,14 @@ static void part_b() {
         if (R->timed_out()) return;
         Sim s(Params{mr, mw, so}); std::vector<int> hist;      // every step of every history is compared with the closed graph's successor map
         g.states.insert(absstr(s));
-        dfs(s, 0, L, Lr, hist, g, cl, steps, histories, histories_redef);
+        dfs(s, 0, L, Lr, hist, g, cl, steps, histories, histories_redef, histories_rt);
     }
     bool nondet = false; for (auto& v : R->violations) if (v.key.find("abstract-key-not-deterministic") != std::string::npos) nondet = true;
     if (!nondet) for (auto& st : g.states) if (!cl.states.count(st)) R->violation("C18:harness:closure-misses-state", "state [" + st + "] reached by a history is not in the closed abstract graph");
     R->evaluations += steps;
     R->count("trig_histories_length_" + std::to_string(L) + "_single_definition", (long long)histories);
     R->count("trig_histories_length_" + std::to_string(Lr) + "_with_1_or_2_redefinitions", (long long)histories_redef);
+    R->count("trig_histories_length_" + std::to_string(Lr) + "_with_roundtrips_max_" + std::to_string(g_max_s), (long long)histories_rt);
     R->count("trig_steps_on_real_code", (long long)steps);
 }
 
@@ -517,11 +564,18 @@ static void replay_edge(const std::string& line) {
     R->evaluations++; R->traces_validated++;
     if (absstr(s) != sec[0]) { R->violation(rkey(s, "C18:tla-edge:path-does-not-reach-source"), "replaying the model path [" + sec[3] + "] on the implementation gives [" + absstr(s) + "], the model says [" + sec[0] + "]", rp); return; }
     const int e = parse_ev(sec[1]); if (e < 0 || !ev_enabled(s, e)) { R->violation("C18:tla-edge:bad-line", "bad action in [" + line + "]", rp); return; }
-    const size_t before = s.runs.size();
-    apply_ev(s, e, cs);
-    const std::string got = absstr(s);
-    R->observe(vf::fnv(sec[0] + "|" + sec[1] + "|" + got));
-    if (got != sec[2]) R->violation(rkey(s, std::string("C18:tla-edge:target-differs:") + (e >= 6 ? "redefine" : s.runs.size() > before ? "impl-ran" : "impl-did-not-run")), "TLC edge [" + sec[0] + "] --" + sec[1] + "--> [" + sec[2] + "]: the implementation reaches [" + got + "]", rp);
+    // conformance variants: the edge as it is, and with a serialisation round trip (a stuttering step of the model)
+    // of Actions (S1) / Actions + State (S2) inserted between the source state and the edge's event
+    const Sim src = s;
+    for (int variant = 0; variant < 3; ++variant) {
+        Sim v = src;
+        if (variant > 0) { apply_ev(v, 6 + NREDEF + variant - 1, cs); R->evaluations++; R->count("edges_replayed_with_roundtrip_inserted"); }
+        const size_t before = v.runs.size();
+        apply_ev(v, e, cs);
+        const std::string got = absstr(v);
+        R->observe(vf::fnv(sec[0] + "|" + sec[1] + "|" + got + (variant ? "|S" : "")));
+        if (got != sec[2]) R->violation(rkey(v, std::string("C18:tla-edge:target-differs:") + (e >= 6 ? "redefine" : v.runs.size() > before ? "impl-ran" : "impl-did-not-run")), "TLC edge [" + sec[0] + "] --" + (variant ? std::string(EVNAME[6 + NREDEF + variant - 1]) + " " : std::string()) + sec[1] + "--> [" + sec[2] + "]: the implementation reaches [" + got + "]", rp);
+    }
 }
 
 int main(int argc, char** argv) {
@@ -533,18 +587,19 @@ int main(int argc, char** argv) {
 
     const std::string rule_a = std::string("(a) every Boolean tree with <= ") + (run.thorough() ? "5" : "4") + " comparisons over the 13-symbol leaf alphabet {" + [] { std::string s; for (auto& l : LEAVES) { if (!s.empty()) s += ", "; s += join(l.tok); } return s; }() +
         "} and " + (run.thorough() ? "6 comparisons over its first 5 symbols;" : "5 comparisons over its first 6 symbols;") + " internal nodes AND/OR freely labelled (so same-operator nesting is included), rendered with the parentheses that keep the tree plus a fully parenthesised variant, parenthesis nesting <= 3; seam Action::AST(tokens).eval(Context) on a fixed SummaryState (15 JUL 2020, wells I1 P1 P2, group G1, WLIST *L1); oracle: reference evaluator = truth value of the Boolean expression and, when it is true, the sorted matching-well list = intersection under AND / union under OR where scalar and false sub-conditions contribute no set (the set of a false condition is not compared)";
-    const std::string rule_b = std::string("(b) histories over the events {evaluation (dt in {0,1,2} d) x (condition T/F)} + {REDEFINITION R1 (max_run 2, min_wait 1 d, start +0), R2 (3, 2 d, +1 d), R3 (1, 0, +0): the same ACTIONX name added again at the current time with other limits and another condition text, at most 2 per history}: every history of ") + (run.thorough() ? "8 evaluations without and every history of length 7 with redefinitions" : "length 6") + ", for the first definition max_run {0..3} x min_wait {0..3} d x start offset {0,2} d (so a redefinition follows 0, 1 .. max_run runs of the earlier definition), driven as the simulator does: Actions::add / Actions::pending(state,t) -> ActionX::eval -> State::add_run; reference keeps run count and last-run time per definition (a redefinition starts with count 0 and no previous run); oracles after every event: ready()/pending() == reference predicate, |runs| <= max_run, consecutive runs >= min_wait apart, no run before start, ready and true => runs, State::run_count/run_time of the current definition == recorded list; states/transitions = abstract graph (limits, run count, days since last run cap 3, days since definition cap 2, last gap cap 3, definition index, ghost: age of the last run of the oldest earlier definition cap 3) closed by an unbounded BFS on the real code from all 32 first definitions (frontier 0), determinism of the abstract key checked on every step of every history";
+    const std::string rule_b = std::string("(b) histories over the events {evaluation (dt in {0,1,2} d) x (condition T/F)} + {REDEFINITION R1 (max_run 2, min_wait 1 d, start +0), R2 (3, 2 d, +1 d), R3 (1, 0, +0): the same ACTIONX name added again at the current time with other limits and another condition text, at most 2 per history} + {ROUND TRIP S1: the Actions object, S2: Actions and Action::State are packed with Serializer<MemPacker> and the history continues on the unpacked copies, at most ") + (run.thorough() ? "2" : "1") + " per history, at every position}: every history of " + (run.thorough() ? "8 evaluations and every history of length 7 with redefinitions and/or round trips" : "length 6") + ", for the first definition max_run {0..3} x min_wait {0..3} d x start offset {0,2} d (so a redefinition follows 0, 1 .. max_run runs of the earlier definition), driven as the simulator does: Actions::add / Actions::pending(state,t) -> ActionX::eval -> State::add_run; reference keeps run count and last-run time per definition (a redefinition starts with count 0 and no previous run); oracles after every event: ready()/pending() == reference predicate, |runs| <= max_run, consecutive runs >= min_wait apart, no run before start, ready and true => runs, State::run_count/run_time of the current definition == recorded list; a round trip is a stuttering step of the reference (abstract state unchanged, same future: additionally, from every state of the closed graph, S + event must reach the successor that the event alone reaches); states/transitions = abstract graph (limits, run count, days since last run cap 3, days since definition cap 2, last gap cap 3, definition index, ghost: age of the last run of the oldest earlier definition cap 3) closed by an unbounded BFS on the real code from all 32 first definitions (frontier 0), determinism of the abstract key checked on every step of every history";
     run.assumptions = {
         "A1: a well-level comparison over a pattern/list is true iff it holds for at least one well (the statement fixes the set, not this truth value)",
         "matching set compared only when the whole condition is true (for a false condition the statement's 'contributes no set' and the implementation's cleared set coincide; counted in false_condition_with_nonempty_set otherwise)",
         "reference values of the 13 leaves are computed by the harness from its own table of summary values, glob patterns resolved by hand (P* -> P1,P2; * -> I1,P1,P2; *L1 -> P2,I1)",
         "MNTH numeric right-hand sides are integers (the nearest-integer convention for MNTH is not in the statement and not exercised)",
         "condition outcome in part (b) is produced by really evaluating the definition's condition (FOPR > 0, FOPR >= 1, FOPR > 0.5, FOPR .GT. 0) on a summary state with FOPR = +1 / -1",
+        "serialisation round trips use Opm::Serializer<Opm::Serialization::MemPacker> on Action::Actions (and Action::State); only behaviour after the round trip is judged (structural equality is C11's business)",
         "a redefinition is a new action: the three limits are judged per definition (name + definition index), as ActionX::ready/State::run_count/run_time key them; its start time is the time of the redefinition + offset",
         "the triage model of the empty-but-present set only selects the violation key; verdicts come from the reference evaluator alone"};
 
     if (!edges_file.empty()) {
-        run.rule = "model tier: every edge of the TLC state graph of models/C18_trigger.tla, Step(dt,c) and Redefine(k) edges alike (source | action | target | first definition + BFS-tree path) replayed on Actions::add / Actions::pending / ActionX::ready / ActionX::eval / State::add_run; the abstraction of the implementation state after the path must equal the source and after the action the target; all part (b) step oracles active during the replay";
+        run.rule = "model tier: every edge of the TLC state graph of models/C18_trigger.tla, Step(dt,c) and Redefine(k) edges alike (source | action | target | first definition + BFS-tree path) replayed three times - as is, and with a serialisation round trip of Actions / of Actions and Action::State inserted before the edge's event (a stuttering step of the model) - on Actions::add / Actions::pending / ActionX::ready / ActionX::eval / State::add_run; the abstraction of the implementation state after the path must equal the source and after the action the target; all part (b) step oracles active during the replay";
         std::ifstream in(edges_file); std::string line, last;
         while (std::getline(in, line)) { if (line.empty()) continue; if (!run.mine()) continue; run.current("edge " + line); replay_edge(line); last = line; }
         if (!last.empty()) run.sample_str("edge " + last);
